@@ -590,13 +590,14 @@ fn nesting_gadget(rng: &mut Rng, faulty: bool) -> Gadget {
     let all: Vec<&str> = TS_LOCATIONS.to_vec();
     items.push(dirdef("zgn", vec![iv("i", Ty::named(&tname(0))), iv("l", Ty::list(Ty::non_null(Ty::named(&tname(0)))))], true, &all));
     let depth = 1 + rng.below(6);
-    let fault = if faulty { Some(rng.below(6)) } else { None };
-    let fault_name = ["string-for-int", "unknown-field", "required-field-missing", "null-for-non-null", "int-for-input-object-in-list", "field-repeated"];
+    let fault = if faulty { Some(rng.below(7)) } else { None };
+    let fault_name = ["string-for-int", "unknown-field", "required-field-missing", "null-for-non-null", "int-for-input-object-in-list", "field-repeated", "int-beyond-32-bit"];
     // the literal for type index `i`, `depth` more levels below; the fault sits in the deepest object
     fn lit(rng: &mut Rng, i: usize, depth: usize, fault: Option<usize>) -> Val {
         let mut fs: Vec<Arg> = vec![Arg::new("s", vs("x"))];
         if rng.coin() {
-            fs.push(Arg::new("v", if rng.chance(1, 4) { Val::Null(p0()) } else { vi("7") }));
+            // 32-bit boundary values are valid Int inputs (fix e3584a3 tests `parse::<i32>`)
+            fs.push(Arg::new("v", if rng.chance(1, 4) { Val::Null(p0()) } else { vi(["7", "2147483647", "-2147483648", "-0"][rng.below(4)]) }));
         }
         if depth > 0 {
             if rng.coin() {
@@ -625,10 +626,15 @@ fn nesting_gadget(rng: &mut Rng, faulty: bool) -> Gadget {
                     fs.push(Arg::new("s", Val::Null(p0())));
                 }
                 4 => fs.push(Arg::new("items", Val::List(vec![Val::Obj(vec![Arg::new("s", vs("y"))], p0()), vi("3")], p0()))),
-                _ => {
+                5 => {
                     fs.retain(|a| a.name != "v");
                     fs.push(Arg::new("v", vi("1")));
                     fs.push(Arg::new("v", vi("2")));
+                }
+                _ => {
+                    // an integer literal outside the signed 32-bit range in an Int field (spec 3.5.1; fix e3584a3)
+                    fs.retain(|a| a.name != "v");
+                    fs.push(Arg::new("v", vi(["2147483648", "-2147483649", "4294967296", "12345678901234567890"][rng.below(4)])));
                 }
             }
         } else if rng.chance(1, 3) {
